@@ -110,6 +110,13 @@ impl H2FloodDetector {
     //@      && final(self).total_settings_received_lifetime == old(self).total_settings_received_lifetime, // [lifetime-ceilings-never-decay]
     //@    old(self).window_start.spec_elapsed_ge_window() ==> final(self).rst_stream_count == old(self).rst_stream_count / 2, // [half-decay]
     //@    final(self).config == old(self).config,                                                         // [frame]
+    //@    final(self).continuation_count == old(self).continuation_count
+    //@      && final(self).accumulated_header_size == old(self).accumulated_header_size,                  // [per-block-counters-do-not-decay]
+    //@    !old(self).window_start.spec_elapsed_ge_window() ==> (final(self).rst_stream_count == old(self).rst_stream_count
+    //@      && final(self).ping_count == old(self).ping_count && final(self).settings_count == old(self).settings_count
+    //@      && final(self).empty_data_count == old(self).empty_data_count
+    //@      && final(self).window_update_stream0_count == old(self).window_update_stream0_count
+    //@      && final(self).glitch_count == old(self).glitch_count),                                       // [no-decay-inside-the-window]
     //@end
 
     // check_flood (nested fn + ten `.or_else(|| flag(..))` closures) is outside Verus' reach: NOT under contract.
